@@ -23,6 +23,12 @@ CHECKS = {
             "Saml2Client and compares accept/reject with an independent truth table in both directions; the driver's "
             "event log must show a genuine successful verification for every signature present in an accepted cell.",
             TRUST, "3/C02"),
+    "C12": ("exploration", "generated instance trees for every schema class + independent structural comparator and independent parse",
+            "For all ~1150 element classes of all schema modules generates instance trees from the class tables (every attribute and child, "
+            "cardinalities 1..3, bounded depth, hostile text, foreign children/attributes), serialises, parses back with the library and "
+            "compares with a comparator that does not use SamlBase.__eq__; the second serialisation must be byte-identical and a stdlib parse "
+            "of the text must show children in table order and the foreign content present.",
+            PURE, "3/C12"),
     "C18": ("exploration", "reference-model monitor over operation histories (bounded-exhaustive + random), invariants after every step",
             "Replays every operation history up to a bounded depth over 2 users x 2 SPs (abstract-state pruned), long random histories on "
             "dict- and shelve-backed IdentDB, hostile field contents and the adversarial user-id class against a dictionary model; after each "
